@@ -263,6 +263,12 @@ macro_rules! mk_view {
                     "tu_string" => Box::new(move || tu_string!(ctx, $key).to_string()),
                     "t_display" => Box::new(move || t_display!(ctx, $key).to_string()),
                     "td_string" => Box::new(move || td_string!(ctx.get_locale(), $($full)+).to_string()),
+                    // the accessor is created once, here; every later call must use the locale shown *then*
+                    // (0 is `one` in fr / fr-CA and `other` in en / en-US / de)
+                    "t_plural" => {
+                        let f = leptos_i18n::t_plural!(ctx, count = || 0, one => "one", _ => "other");
+                        Box::new(move || f().to_string())
+                    }
                     // a derived reactive value: must be re-evaluated after a tracked `set_locale`
                     "memo" => {
                         let m = Memo::new(move |_| t_string!(ctx, $key).to_string());
@@ -283,6 +289,14 @@ macro_rules! mk_view {
                     }
                     "td_string" => {
                         let m = Memo::new(move |_| td_string!(ctx.get_locale(), $($full)+).to_string());
+                        Box::new(move || m.get_untracked())
+                    }
+                    "t_display" => {
+                        let m = Memo::new(move |_| t_display!(ctx, $key).to_string());
+                        Box::new(move || m.get_untracked())
+                    }
+                    "t_plural" => {
+                        let m = Memo::new(move |_| leptos_i18n::t_plural!(ctx, count = || 0, one => "one", _ => "other")().to_string());
                         Box::new(move || m.get_untracked())
                     }
                     other => panic!("unknown memo kind {other}"),
